@@ -196,4 +196,6 @@ func H_C07_c() { hC07(2, 1, 1, 4, 2, true, 0) }
 
 // thorough: case = first op (12) x layout (2)
 func H_C07_t22() { c := vCase(); hC07(2, 2, 2, 6, 2, false, (c/12)%2) }
-func H_C07_t()   { c := vCase(); hC07(3, 2, 1, 4, 2, false, (c/8)%2) }
+
+// three threads with one operation each (2+2+1 operations exceed 1M paths per case and 55 minutes: not registered)
+func H_C07_t() { c := vCase(); hC07(3, 1, 1, 4, 2, false, (c/8)%2) }
